@@ -2,6 +2,7 @@
 """Extract per-patch summary/needs from the sub-agents' notes.md (round 2) into tools/seeded_meta2.json."""
 import json, os, re, sys
 root = sys.argv[1] if len(sys.argv) > 1 else "/tmp/mut2"
+rnd = int(sys.argv[2]) if len(sys.argv) > 2 else 2
 out = {}
 for c in sorted(os.listdir(root)):
     f = os.path.join(root, c, "notes.md")
@@ -18,6 +19,6 @@ for c in sorted(os.listdir(root)):
             needs = body[nm.end():].strip()
             needs = re.split(r"\n\s*\n(?=[^\s\-\*])|\n(?=\*?\s*\*{0,2}(demo|Commands|Effect|Result|Different|Unaffected|Mechanism))", needs)[0]
             needs = re.sub(r"\s+", " ", needs)[:600]
-        out[f"{c}-{n + 2}"] = {"summary": re.sub(r"\s+", " ", m.group(2)).strip(" `"), "needs": needs}
-json.dump(out, open(os.path.join(os.path.dirname(os.path.abspath(__file__)), "seeded_meta2.json"), "w"), indent=1)
+        out[f"{c}-{n + 2 * (rnd - 1)}"] = {"summary": re.sub(r"\s+", " ", m.group(2)).strip(" `"), "needs": needs}
+json.dump(out, open(os.path.join(os.path.dirname(os.path.abspath(__file__)), f"seeded_meta{rnd}.json"), "w"), indent=1)
 print(len(out), [k for k, v in out.items() if not v["needs"]])
